@@ -614,6 +614,36 @@ func c20Lifecycle(c *harness.Ctx, idx *int) {
 			w.WaitServeDone()
 			return "", ""
 		}},
+		{"inbound-through-dual-stack-wildcard-listener", func(w *world.World) (string, string) {
+			// ":179" is an AF_INET6 socket that also takes IPv4 connections: the addresses of the accepted
+			// connection are IPv4-mapped (they print dotted, but are not equal to the IPv4 address as values)
+			s := w.NewServer(libIP)
+			w.Serve(":179")
+			if err := s.AddPeer(peerConfig(remIP2, 65001, 65003), &world.Plugin{W: w, Peer: "P2", Marker: true}, corebgp.WithPassive()); err != nil {
+				return "setup", err.Error()
+			}
+			if err := s.AddPeer(peerConfig("10.0.0.4", 65001, 65004), &world.Plugin{W: w, Peer: "P3", Marker: true}, corebgp.WithPassive(), corebgp.WithLocalAddress(netip.MustParseAddr(libIP))); err != nil {
+				return "setup", err.Error()
+			}
+			for i, pc := range []struct {
+				from, name string
+				as         uint32
+			}{{"10.0.0.3:40000", "P2", 65003}, {"10.0.0.4:40000", "P3", 65004}} {
+				cn, err := w.NW.DialIn(pc.from, libAddr)
+				if err != nil {
+					return "setup", err.Error()
+				}
+				r := w.NewRemote(cn, pc.name)
+				r.Deadline(2 * time.Second)
+				if !reach(r, stEstablished, pc.as, 90) {
+					return "added-peer-refuses-inbound", fmt.Sprintf("peer %d (%s): an IPv4 connection accepted on a dual-stack wildcard listener did not lead to a session", i+1, pc.name)
+				}
+				r.C.Close()
+			}
+			w.Close()
+			w.WaitServeDone()
+			return "", ""
+		}},
 		{"ipv6-peer-port-and-local-address", func(w *world.World) (string, string) {
 			// an IPv6 peer with a local address and a non-default port, and an IPv4 peer with another port:
 			// the dial goes to exactly that address and port, from that local address, and a full session
